@@ -4,15 +4,17 @@ from genlib import *
 
 LEAN_MODULES = ["MpirProofs.Props.C07"]
 THEOREMS = ["Mpir.C07.red_preserves", "Mpir.C07.gcd_loop_correct", "Mpir.C07.gcd_loop_terminates",
-            "Mpir.C07.mpn_gcd_correct_partial", "Mpir.C07.mpn_gcdext_identity_partial", "Mpir.C07.gcd_1_spec", "Mpir.C07.div1_div2_spec", "Mpir.C07.gcdext_1_spec",
+            "Mpir.C07.mpn_gcd_correct_partial", "Mpir.C07.mpn_gcdext_identity_partial",
+            "Mpir.C07.hgcd2_exact", "Mpir.C07.hgcd2_contract", "Mpir.C07.mpn_gcd_correct", "Mpir.C07.mpn_gcdext_identity", "Mpir.C07.mpz_gcd_lcm_correct",
+            "Mpir.C07.gcd_1_spec", "Mpir.C07.div1_div2_spec", "Mpir.C07.gcdext_1_spec",
             "Mpir.C07.mpz_gcd_spec", "Mpir.C07.mpz_gcdext_spec", "Mpir.C07.gcdext_unique", "Mpir.C07.invert_spec", "Mpir.C07.mpz_gcd_ui_spec", "Mpir.C07.lcm_spec",
             "Mpir.C07.jacobi_base_spec", "Mpir.C07.kronecker_spec",
             "Mpir.C07.kronecker_wrappers_spec", "Mpir.C07.mpz_jacobi_spec"]
 TRUSTED = ["hand-written models lean/Mpir/Model/Gcd.lean (tied by correspondence on every run)",
            "assembly kernel mpn_modexact_1c_odd is modelled by its documented contract (r < d, r*B^n + a = 0 mod d) and compared on every run",
            "mpn_hgcd / hgcd_appr / hgcd_reduce / matrix22_mul (sizes above the DC thresholds) are covered by the differential run and the abstract step theorem (red_preserves / gcd_loop_correct) only",
-           "the contract of mpn_hgcd2 (Hgcd2Contract: unimodular, not identity, M^-1(a;b) positive, at most one limb lost) is assumed by mpn_gcd_correct_partial / mpn_gcdext_identity_partial and checked at run time on every hgcd2 call of the model's Lehmer loop and on every mpn_hgcd2 op; the hgcd2 model itself is compared bit-exactly (mpn_hgcd2_x)"]
-ASSUMPTIONS = ["mpz_gcd_spec / lcm_spec assume MpnGcdContract (discharged from Hgcd2Contract by mpn_gcd_correct_partial for the Lehmer model); mpz_gcdext_spec / invert_spec assume MpnGcdextContract (mpn_gcdext's documented normalisation |S| < V/(2G); only the identity part is proved for the model, the bound is checked by the predicate op mpn_gcdext on every run)",
+           "the contract of mpn_hgcd2 (Hgcd2Contract: unimodular, not identity, M^-1(a;b) positive, at most one limb lost) is PROVED for the hgcd2 model (hgcd2_contract, hgcd2_exact) and additionally checked at run time on every hgcd2 call of the model's Lehmer loop and on every mpn_hgcd2 op; the hgcd2 model itself is compared bit-exactly (mpn_hgcd2_x)"]
+ASSUMPTIONS = ["mpz_gcd_spec / lcm_spec assume MpnGcdContract, which is proved outright for the Lehmer model (mpn_gcd_correct, using hgcd2_contract; mpz_gcd_lcm_correct is the hypothesis-free corollary); mpz_gcdext_spec / invert_spec assume MpnGcdextContract (mpn_gcdext's documented normalisation |S| < V/(2G); only the identity part is proved for the model (mpn_gcdext_identity, no hgcd2 assumption left), the bound is checked by the predicate op mpn_gcdext on every run)",
                "mpn_gcdext for n >= GCDEXT_DC_THRESHOLD and mpn_jacobi_n are modelled by their specification (unique answer), not step by step; mpn_jacobi_2 is mirrored and asserted equal to the specification at run time"]
 RULE = ("gcd-family operand pairs: consecutive Fibonacci numbers and perturbations, continued fractions run backwards from (g, q_1..q_k) with "
         "quotients 1/2/B-1/B/B+1/2^63/2^32/multi-limb, a=b, b|a, |b|=2g, |a|=2g, zeros, huge common factors, powers of two, limb-size differences 0..3 and large, "
